@@ -220,3 +220,43 @@ Proof.
   intros Hw Hs Hx. destruct (interval_exists w s x Hw Hs Hx) as [j [Hj Hj2]].
   rewrite (ss_right_in w s x j Hw Hs Hj Hj2). lia.
 Qed.
+
+(* side="left" counterpart: number of table entries < x *)
+Lemma ss_left_in w s x (i : nat) :
+  nonneg w -> 0 < s -> (i < length w)%nat ->
+  s * pre w i < x <= s * pre w (S i) -> ss false w s x = Z.of_nat i.
+Proof.
+  intros Hw Hs Hi Hx. unfold ss.
+  rewrite (cnt_ext _ (fun m => (0 <=? m) && (m <? Z.of_nat i))).
+  - rewrite cnt_interval. lia.
+  - intros m Hm. cbv zeta.
+    destruct (Z.ltb_spec m (Z.of_nat i)) as [Hlt|Hge].
+    + replace (0 <=? m) with true by (symmetry; apply Z.leb_le; lia). cbn [andb].
+      apply Z.ltb_lt.
+      pose proof (pre_mono w Hw (S (Z.to_nat m)) i ltac:(lia)). nia.
+    + rewrite andb_false_r. apply Z.ltb_ge.
+      pose proof (pre_mono w Hw (S i) (S (Z.to_nat m)) ltac:(lia)). nia.
+Qed.
+
+Lemma interval_exists_left w s x :
+  nonneg w -> 0 < s -> 0 < x <= s * total w ->
+  exists i, (i < length w)%nat /\ s * pre w i < x <= s * pre w (S i).
+Proof.
+  intros Hw Hs. unfold total.
+  induction (length w) as [|n IH]; intros Hx.
+  - cbn [pre] in Hx. destruct w; cbn in Hx; lia.
+  - destruct (Z_le_gt_dec x (s * pre w n)) as [Hle|Hgt].
+    + destruct IH as [i [Hi Hi2]]; [lia|]. exists i. split; [lia|assumption].
+    + exists n. split; [lia|]. lia.
+Qed.
+
+Lemma ss_left_iff w s x (i : nat) :
+  nonneg w -> 0 < s -> (i < length w)%nat -> 0 < x <= s * total w ->
+  (ss false w s x = Z.of_nat i <-> s * pre w i < x <= s * pre w (S i)).
+Proof.
+  intros Hw Hs Hi Hx. split.
+  - intros E. destruct (interval_exists_left w s x Hw Hs Hx) as [j [Hj Hj2]].
+    rewrite (ss_left_in w s x j Hw Hs Hj Hj2) in E.
+    apply Nat2Z.inj in E. subst j. assumption.
+  - apply ss_left_in; assumption.
+Qed.
